@@ -91,7 +91,8 @@ def p2(led, rid, ctx):
 
 def p3(led, rid, ctx):
     lib = ctx.lib
-    f = lib.method("ConstraintSatisfactionSolver", "resolve_conflict_with_nogood")
+    from .shared import method_view as _mv
+    f = _mv(lib, "ConstraintSatisfactionSolver", "resolve_conflict_with_nogood", keep=("add_learned_nogood", "add_asserting_nogood_to_nogood_propagator", "backtrack", "process", "resolve_conflict", "prepare_for_conflict_resolution", "declare_solving", "log_learned_clause", "log_learned_nogood", "decay_nogood_activities"))
     R = resolver(f)
     logs = f.calls_named("log_learned_clause")
     adds = f.calls_named("add_learned_nogood")
